@@ -163,11 +163,11 @@ class SymVC:
         self.havoc += 1
         return SBits.of([fresh_bit("havoc%d_%d" % (self.havoc, i)) for i in range(n)], endian)
 
-    def nat(self, name, lo=0, bits=6):
-        """unbounded integer >= lo (state-machine counters; bits: spread of the native random draw only)"""
+    def nat(self, name, lo=0, bits=6, hi=None):
+        """integer >= lo (<= hi if given): a word-level z3 Int variable (bits: spread of the native random draw only)"""
         from .zint import SZInt
 
-        return self._reg(name, SZInt.fresh(name, lo))
+        return self._reg(name, SZInt.fresh(name, lo, hi))
 
     # ---- helpers that differ between the modes
     def mkbits(self, bits, endian="big"):
@@ -479,10 +479,12 @@ class NativeVC:
         self.drawn[name] = v
         return v
 
-    def nat(self, name, lo=0, bits=6):
+    def nat(self, name, lo=0, bits=6, hi=None):
         if name in self.w:
             return int(self.w[name])
         v = lo + (self._draw(name, bits) if self.rnd else 0)
+        if hi is not None:
+            v = min(v, hi)
         self.drawn[name] = v
         return v
 
